@@ -69,11 +69,16 @@ def draw_gmm(n, loc, scale, pvals, random_state=None) -> Tuple[np.ndarray, np.nd
     # Draw the true cluster from which to draw
     y = generator.choice(K, p=pvals, size=(n,))
     if d == 1:
+        # In one dimension, the covariances are variances: accept both the (K, 1) and the (K, 1, 1) layouts
+        if scale.size != K:
+            raise ValueError("The covariances should be square matrices")
+        scale = scale.reshape(K)
         for k in range(K):
             if scale[k] <= 0:
                 raise ValueError(f"The {k}-th variance is negative.")
         for k in range(len(loc)):
-            X += [generator.normal(loc[k], scale[k], size=(n,))]
+            # numpy expects a standard deviation
+            X += [generator.normal(loc[k], np.sqrt(scale[k]), size=(n,))]
     else:
         for k in range(K):
             if np.any(np.linalg.eigvals(scale[k]) < 0):
